@@ -9,6 +9,10 @@ use std::sync::atomic::{AtomicBool, AtomicU64, Ordering};
 use std::time::Instant;
 
 pub const VERIF_DIR: &str = "/verif";
+/// where evidence, replays and the known-findings file live (VERIF_DIR_OVERRIDE is for development copies only)
+pub fn verif_dir() -> String {
+    std::env::var("VERIF_DIR_OVERRIDE").unwrap_or_else(|_| VERIF_DIR.to_string())
+}
 
 #[derive(Clone, Debug, Serialize, Deserialize)]
 pub struct Violation {
@@ -718,7 +722,7 @@ impl Run {
             "violations": unknown.len(),
         });
         if self.replay.is_none() {
-            let dir = format!("{VERIF_DIR}/evidence");
+            let dir = format!("{}/evidence", verif_dir());
             let _ = std::fs::create_dir_all(&dir);
             let path = format!("{dir}/{}.json", self.prop);
             let tmp = format!("{path}.tmp");
@@ -761,7 +765,7 @@ impl Run {
                 }
             }
             let mut seen = HashSet::new();
-            let dir = format!("{VERIF_DIR}/replays/{}", self.prop);
+            let dir = format!("{}/replays/{}", verif_dir(), self.prop);
             let _ = std::fs::create_dir_all(&dir);
             for v in &unknown {
                 if !seen.insert(v.signature.clone()) {
@@ -818,7 +822,7 @@ pub struct KnownFinding {
 }
 
 pub fn load_known_findings() -> Vec<KnownFinding> {
-    let path = format!("{VERIF_DIR}/known_findings.json");
+    let path = format!("{}/known_findings.json", verif_dir());
     let Ok(text) = std::fs::read_to_string(&path) else {
         return vec![];
     };
